@@ -95,6 +95,13 @@ class Printer:
             name, atoms, path = a
             base = name if not atoms else '(%s%s)' % (name, self.atoms(atoms))
             return base + ''.join('.' + p for p in path)
+        if op == 'prev':
+            return '(Batch.prevIdx %s)' % self.pr(a[0])
+        if op == 'reflat':
+            frm, to, atoms, pos = a
+            if len(frm) != 2 or to != frm[::-1]:
+                raise TranslateError('arrays flattened over the axes %r and %r are combined position by position' % (frm, to))
+            return '(Batch.transposePos (%s, %s)).%d' % (self.pr(atoms[0]), self.pr(atoms[1]), pos + 1)
         if op == 'bin':
             return '(%s %s %s)' % (self.pr(a[1]), a[0], self.pr(a[2]))
         if op == 'neg':
@@ -216,7 +223,7 @@ def dim_sig(eng, d):
     if isinstance(d, Prod):
         return ('prod',) + tuple(dim_sig(eng, f) for f in d.factors)
     if isinstance(d, Sel):
-        return ('sel', dim_sig(eng, d.base), id(eng.expand(d.pred(eng.canon_idx(d, set())))))
+        return ('sel', dim_sig(eng, d.base), eng.expand(d.pred(eng.canon_idx(d, set()))))
     if isinstance(d, Flat):
         return ('flat', d.sym.name, dim_sig(eng, d.inner))
     raise TranslateError('unsupported list dimension %r' % (d,))
@@ -239,15 +246,51 @@ def squeeze_dim_sig(s, ones):
     raise TranslateError('internal: squeeze_dim_sig')
 
 
+def only_index(n, ones, memo):
+    """the term with the index 0 of a batch axis that has a single element replaced by the (only) index variable"""
+    if not isinstance(n, N):
+        if isinstance(n, tuple):
+            return tuple(only_index(x, ones, memo) for x in n)
+        return n
+    r = memo.get(id(n))
+    if r is None:
+        if n.op == 'c0' and n.args[0] in ones:
+            r = var(SYMS[n.args[0]].var, n.args[0])
+        elif n.op == 'prev' and n.args[1] in ones:          # the row before the only row is that row
+            r = only_index(n.args[0], ones, memo)
+        elif n.op == 'reflat' and set(n.args[0]) & ones:     # with a single row (or column) the flat position IS the other index
+            t = n.args[1][n.args[3]]
+            r = var(SYMS[t].var, t)
+        elif n.op in ('var', 'c0', 'lit'):
+            r = n
+        else:
+            r = mk(n.op, *[only_index(a, ones, memo) for a in n.args])
+        memo[id(n)] = r
+    return r
+
+
+def freeze(x, ones, memo):
+    """nodes -> identities (after `only_index`)"""
+    if isinstance(x, N):
+        return ('#', id(only_index(x, ones, memo)))
+    if isinstance(x, tuple):
+        return tuple(freeze(y, ones, memo) for y in x)
+    return x
+
+
 def squeeze_signature(sg, ones):
+    return freeze(squeeze_signature_(sg, ones), ones, {})
+
+
+def squeeze_signature_(sg, ones):
     if sg[0] == 'rows':
         return ('rows', squeeze_dim_sig(sg[1], ones)) + sg[2:]
     if sg[0] == 'groups':
         return sg[:2] + (squeeze_dim_sig(sg[2], ones),) + sg[3:]
     if sg[0] == 'pair':
-        return ('pair', squeeze_signature(sg[1], ones), squeeze_signature(sg[2], ones))
+        return ('pair', squeeze_signature_(sg[1], ones), squeeze_signature_(sg[2], ones))
     if sg[0] == 'option':
-        return sg[:2] + (squeeze_signature(sg[2], ones),)
+        return sg[:2] + (squeeze_signature_(sg[2], ones),)
     return sg
 
 
@@ -387,7 +430,7 @@ def signature(eng, job, spec, val):
     """what a result computes, with every let inlined: compared between the assumptions on the batch sizes"""
     k = spec[0]
     what = job.lean
-    ex = lambda comps: tuple(sorted((c, id(eng.expand(n))) for c, n in comps.items()))
+    ex = lambda comps: tuple(sorted(((c, eng.expand(n)) for c, n in comps.items()), key=lambda x: x[0]))
     if k == 'hit':
         return ('hit', ex(tensor_nodes(eng, job, val, spec[1], 'Ray', 's', what)), ex(tensor_nodes(eng, job, val, spec[2], None, 's', what)))
     if k in ('ray', 'vec', 's', 'b'):
@@ -407,7 +450,7 @@ def signature(eng, job, spec, val):
     if k == 'option':
         if not isinstance(val, bc.Guarded):
             raise TranslateError('%s: no `return 0, 0` guard' % what)
-        return ('option', id(eng.expand(val.flag.fn([]))), signature(eng, job, spec[1], val.value))
+        return ('option', eng.expand(val.flag.fn([])), signature(eng, job, spec[1], val.value))
     raise TranslateError('unknown result kind ' + k)
 
 
